@@ -27,7 +27,7 @@ func (c15) Budget(tier string) int {
 	if tier == "thorough" {
 		return 12000
 	}
-	return 640
+	return 3200
 }
 
 func (c15) Describe() engine.Info {
